@@ -50,12 +50,14 @@ func getSwapOutReceiverStates() States {
 				Event_ActionFailed:    State_SendCancel,
 				Event_ActionSucceeded: State_SwapOutReceiver_AwaitFeeInvoicePayment,
 			},
+			FailOnrecover: true,
 		},
 		State_SwapOutReceiver_AwaitFeeInvoicePayment: {
 			Action: &AwaitFeeInvoicePayment{},
 			Events: Events{
 				Event_OnFeeInvoicePaid: State_SwapOutReceiver_BroadcastOpeningTx,
 				Event_OnCancelReceived: State_SwapCanceled,
+				Event_OnTimeout:        State_SendCancel,
 				Event_ActionFailed:     State_SendCancel,
 			},
 			FailOnrecover: true,
